@@ -440,7 +440,8 @@ type relayState struct {
 	fwd     map[string][]byte // bytes accepted per copier
 	ended   map[string]string // copier -> class of its terminal event
 	wfail   map[string]bool
-	first   string // class of the first terminal event
+	hard    map[string]bool // the copier's io.Copy must have returned (nothing but closes may follow)
+	first   string          // class of the first terminal event
 	items   []string
 	events  []string
 	oracle  []string // violations: "sig|desc"
@@ -451,7 +452,7 @@ type relayState struct {
 func newRelayState() *relayState {
 	return &relayState{parked: map[string]string{}, inbox: map[string]int{}, fin: map[string]string{},
 		closed: map[string]bool{}, fed: map[string]int{}, writes: map[string]int{}, grants: map[string]int{},
-		fedB: map[string][]byte{}, fwd: map[string][]byte{}, ended: map[string]string{}, wfail: map[string]bool{},
+		fedB: map[string][]byte{}, fwd: map[string][]byte{}, ended: map[string]string{}, wfail: map[string]bool{}, hard: map[string]bool{},
 		closeBy: map[string]int{}, bothAt: -1, chunks: map[string][]int{}}
 }
 
@@ -493,14 +494,14 @@ func (s *relayState) absorb(cmd string, rep string) bool {
 		if f[0] == "ok" {
 			s.fin[w[1]] = w[2]
 		}
-		s.items = append(s.items, "c:fin:"+w[1]+":"+w[2])
+		s.items = append(s.items, "c:fin:"+w[1]+":"+strings.SplitN(w[2], ":", 2)[0])
 	case "rd":
 		fin := "0"
 		if len(w) > 3 {
 			fin = "1"
 		}
 		s.items = append(s.items, "c:rd:"+w[1]+":"+w[2]+":"+fin)
-	case "wr":
+	case "wr": // wr d ok | wr d short k | wr d err k [kind]
 		k := "0"
 		if len(w) > 3 {
 			k = w[3]
@@ -519,6 +520,10 @@ func (s *relayState) absorb(cmd string, rep string) bool {
 		switch p[0] {
 		case "read": // read:d:c:data:hex:cls | read:d:c:eof|err|closed
 			d, c := p[1], p[2]
+			if cls, over := s.ended[d]; over {
+				// property: as soon as either side ends both connections are closed and the relay returns
+				s.viol("copier-continues-after-end", fmt.Sprintf("copier %s saw its side end (%s) and then called Read again instead of closing both conns", d, cls))
+			}
 			if p[3] == "data" {
 				b := vlib.UnHex(p[4])
 				s.inbox[c] -= len(b)
@@ -537,6 +542,7 @@ func (s *relayState) absorb(cmd string, rep string) bool {
 			} else {
 				cls := map[string]string{"eof": "nil", "err": "rerr" + c, "closed": "closed"}[p[3]]
 				s.ended[d] = cls
+				s.hard[d] = true
 				if s.first == "" {
 					s.first = cls
 				}
@@ -548,6 +554,9 @@ func (s *relayState) absorb(cmd string, rep string) bool {
 			if n < 0 || n > len(b) {
 				n = 0
 			}
+			if cls, over := s.ended[d]; over && s.hard[d] {
+				s.viol("copier-continues-after-end", fmt.Sprintf("copier %s saw an operation fail (%s) and then called Write again instead of closing both conns", d, cls))
+			}
 			s.fwd[d] = append(s.fwd[d], b[:n]...)
 			s.writes[d]++
 			switch p[5] {
@@ -555,12 +564,18 @@ func (s *relayState) absorb(cmd string, rep string) bool {
 				if cls, fin := s.ended[d]; fin && s.first == "" {
 					s.first = cls // data+EOF read: io.Copy returns after this write
 				}
+				if _, fin := s.ended[d]; fin {
+					s.hard[d] = true
+				}
 			case "short":
 				s.ended[d], s.wfail[d] = "short", true
 			case "err":
 				s.ended[d], s.wfail[d] = "werr"+c, true
 			case "closed":
 				s.ended[d], s.wfail[d] = "closed", true
+			}
+			if p[5] != "ok" {
+				s.hard[d] = true
 			}
 			if p[5] != "ok" && s.first == "" {
 				s.first = s.ended[d]
@@ -657,7 +672,7 @@ func (s *relayState) enabled(sc *relayScenario) []string {
 			if ft := sc.Fault[d]; ft != "" && !s.closed[p[1]] {
 				q := strings.Split(ft, ":")
 				if i, _ := strconv.Atoi(q[0]); i == s.writes[d] {
-					out = append(out, "wr "+d+" "+q[1]+" "+q[2])
+					out = append(out, "wr "+d+" "+strings.Join(q[1:], " "))
 				}
 			}
 		case "cl":
@@ -723,6 +738,9 @@ func runRelay(w *worker, sc *relayScenario, cmds []string, leafHint bool) (s *re
 			if len(en) == 0 {
 				leaf = true
 				break
+			}
+			if len(s.oracle) > 0 {
+				break // already a violation: no need to run on
 			}
 			for _, a := range en[1:] {
 				alt := append(append([]string(nil), full...), a)
@@ -864,6 +882,14 @@ func scenarios(thorough bool) []*relayScenario {
 		mk("envfirst-2+1-eof-eof", [][]byte{a1, a2}, [][]byte{b1}, "eof", "eof", nil, false),
 		mk("envfirst-1+2-err-werr", [][]byte{a1}, [][]byte{b1, b2}, "err", "", map[string]string{"ba": "1:err:0"}, false),
 		mk("envfirst-2+1-faults", [][]byte{a1, a2}, [][]byte{b1}, "", "eof", map[string]string{"ab": "1:err:2", "ba": "0:short:1"}, false),
+		// the error VALUE of the failing operation: whatever it is, that copier's side has ended
+		mk("idle-err-optimeout", nil, nil, "err:optimeout", "", nil, false),
+		mk("idle-err-deadline-eintr", nil, nil, "err:deadline", "err:opeintr", nil, false),
+		mk("1chunk-err-tempnet", [][]byte{a1}, nil, "err:tempnet", "", nil, true),
+		mk("1chunk-err-reset", nil, [][]byte{b1}, "", "err:opreset", nil, false),
+		mk("envfirst-4chunk-werr-optimeout", [][]byte{a1, a2, a3, b2}, nil, "eof", "", map[string]string{"ab": "1:err:0:optimeout"}, false),
+		mk("envfirst-2+1-werr-tempnet-pipe", [][]byte{a1, a2}, [][]byte{b1}, "", "eof", map[string]string{"ab": "1:err:1:tempnet", "ba": "0:err:0:oppipe"}, false),
+		mk("1chunk-werr-opdeadline", [][]byte{a2}, nil, "", "err:new", map[string]string{"ab": "0:err:2:opdeadline"}, false),
 	}
 	if thorough {
 		out = append(out,
@@ -878,6 +904,8 @@ func scenarios(thorough bool) []*relayScenario {
 	return out
 }
 
+var errKinds = []string{"plain", "new", "optimeout", "opeintr", "opreset", "oppipe", "opdeadline", "tempnet"}
+
 func randomScenario(rng *vlib.Rng, i int) *relayScenario {
 	sc := &relayScenario{Name: fmt.Sprintf("random-%d", i), Chunks: map[string][][]byte{}, Fin: map[string]string{}, Fault: map[string]string{}}
 	sizes := []int{1, 2, 3, 17, 100, 1000, 32767, 32768, 32769, 40000}
@@ -891,6 +919,9 @@ func randomScenario(rng *vlib.Rng, i int) *relayScenario {
 			sc.Chunks[c] = append(sc.Chunks[c], pat(byte(si*100+j*11), sz))
 		}
 		sc.Fin[c] = vlib.Pick(rng, []string{"", "eof", "eof", "err"})
+		if sc.Fin[c] == "err" && rng.Intn(3) != 0 {
+			sc.Fin[c] = "err:" + vlib.Pick(rng, errKinds)
+		}
 	}
 	if sc.Fin["A"] == "" && sc.Fin["B"] == "" && rng.Intn(3) != 0 {
 		sc.Fin[vlib.Pick(rng, []string{"A", "B"})] = "eof"
@@ -898,6 +929,9 @@ func randomScenario(rng *vlib.Rng, i int) *relayScenario {
 	for _, d := range []string{"ab", "ba"} {
 		if rng.Intn(4) == 0 {
 			sc.Fault[d] = fmt.Sprintf("%d:%s:%d", rng.Intn(4), vlib.Pick(rng, []string{"short", "err"}), rng.Intn(4))
+			if strings.Contains(sc.Fault[d], ":err:") && rng.Intn(3) != 0 {
+				sc.Fault[d] += ":" + vlib.Pick(rng, errKinds)
+			}
 		}
 	}
 	sc.Split = rng.Intn(3) == 0
@@ -919,6 +953,9 @@ func randomRun(r *vlib.Run, w *worker, rng *vlib.Rng, i int) {
 		en := s.enabled(sc)
 		if len(en) == 0 {
 			leaf = true
+			break
+		}
+		if len(s.oracle) > 0 {
 			break
 		}
 		c := en[rng.Intn(len(en))]
